@@ -1,13 +1,95 @@
 /-
-Props/C12.lean — property theorems for C12.
+Props/C12.lean — property theorems for C12 (same answer for T, *T and **T; by-value / unrelated arguments
+of writing operations are refused without effect).
+
+All theorems hold for EVERY configuration of the defect switches — in particular for the model of the tree
+as it is (`GenCfg.repo`): C12 has no known finding. That read operations "never modify the value they read"
+is, in the model, the fact that the read-method models return an answer and no value; on the implementation
+it is observed by the harness (snapshot before/after every read, `read-operation-modified-its-argument`).
 -/
 import InspectorModel.Gen.Get
 import InspectorModel.Gen.Cmp
 import InspectorModel.Gen.LC
+import InspectorModel.Gen.DEQ
+import InspectorModel.Gen.Copy
+import InspectorModel.Gen.Reset
+import InspectorModel.Gen.Set
+import InspectorModel.Gen.Loop
 namespace Inspector.C12
 
+/-- The three ways a non-nil value reaches an inspector. -/
+def okForm (f : Form) : Bool := f == .val || f == .ptr || f == .ptrptr
+
+theorem okForm_iff (f : Form) : okForm f = true ↔ (f = .val ∨ f = .ptr ∨ f = .ptrptr) := by
+  cases f <;> simp [okForm]
+
 /-- By value, by pointer and by pointer-to-pointer: the emitted argument-form switch leaves the same root. -/
-theorem get_forms_agree (cfg : GenCfg) (n : Node) (v : Val) (p : List Seg) :
-    getM cfg n .val v p = getM cfg n .ptr v p ∧ getM cfg n .ptr v p = getM cfg n .ptrptr v p := ⟨rfl, rfl⟩
+theorem get_forms_agree (cfg : GenCfg) (n : Node) (v : Val) (p : List Seg) (f : Form) (hf : okForm f = true) :
+    getM cfg n f v p = getM cfg n .ptr v p := by
+  rcases (okForm_iff f).mp hf with h | h | h <;> subst h <;> rfl
+
+theorem cmp_forms_agree (cfg : GenCfg) (n : Node) (v : Val) (p : List Seg) (op : Op) (r : Seg) (f : Form)
+    (hf : okForm f = true) : cmpM cfg n f v p op r = cmpM cfg n .ptr v p op r := by
+  rcases (okForm_iff f).mp hf with h | h | h <;> subst h <;> rfl
+
+theorem lc_forms_agree (cfg : GenCfg) (isCap : Bool) (n : Node) (v : Val) (p : List Seg) (f : Form)
+    (hf : okForm f = true) : lcM cfg isCap n f v p = lcM cfg isCap n .ptr v p := by
+  rcases (okForm_iff f).mp hf with h | h | h <;> subst h <;> rfl
+
+theorem loop_forms_agree (cfg : GenCfg) (sc : LoopScript) (ft : Val → Bytes) (n : Node) (v : Val) (p : List Seg)
+    (f : Form) (hf : okForm f = true) : loopM cfg sc ft n f v p = loopM cfg sc ft n .ptr v p := by
+  rcases (okForm_iff f).mp hf with h | h | h <;> subst h <;> rfl
+
+/-- DeepEqual: every combination of the three forms on the two sides. -/
+theorem deq_forms_agree (env : DeqEnv) (n : Node) (l r : Val) (fl fr : Form)
+    (hl : okForm fl = true) (hr : okForm fr = true) : deqM env n fl fr l r = deqM env n .ptr .ptr l r := by
+  rcases (okForm_iff fl).mp hl with h | h | h <;> subst h <;>
+    rcases (okForm_iff fr).mp hr with h | h | h <;> subst h <;> rfl
+
+/-- Copy's source. -/
+theorem copy_forms_agree (cfg : GenCfg) (n : Node) (r : Val) (f : Form) (hf : okForm f = true) :
+    copyM cfg n f r = copyM cfg n .ptr r := by
+  rcases (okForm_iff f).mp hf with h | h | h <;> subst h <;> rfl
+
+theorem copyTo_src_forms_agree (cfg : GenCfg) (n : Node) (r l : Val) (fs fd : Form) (hf : okForm fs = true) :
+    copyToM cfg n fs fd r l = copyToM cfg n .ptr fd r l := by
+  rcases (okForm_iff fs).mp hf with h | h | h <;> subst h <;> rfl
+
+/-- Set writes through a pointer or a pointer-to-pointer alike. -/
+theorem set_ptr_forms_agree (cfg : GenCfg) (n : Node) (v : Val) (p : List Seg) (src : Src) (nb : Bool) :
+    setM cfg n .ptrptr v p src nb = setM cfg n .ptr v p src nb := rfl
+
+/-- Operations that must write through their argument reject a by-value argument. -/
+theorem reset_by_value_rejected (cfg : GenCfg) (n : Node) (v : Val) : resetM cfg n .val v = .mustPointer := rfl
+
+theorem copyTo_by_value_rejected (cfg : GenCfg) (n : Node) (r l : Val) (fs : Form) (hf : okForm fs = true) :
+    copyToM cfg n fs .val r l = .mustPointer := by
+  rcases (okForm_iff fs).mp hf with h | h | h <;> subst h <;> rfl
+
+theorem loop_foreign (cfg : GenCfg) (sc : LoopScript) (ft : Val → Bytes) (n : Node) (v : Val) (p : List Seg) :
+    loopM cfg sc ft n .foreign v p = ⟨[], .done⟩ := by
+  have h : rootOfC cfg .foreign = .early := rfl
+  unfold loopM
+  simp only [h, ite_self]
+
+/-- An argument of an unrelated type is refused without effect, by every method. -/
+theorem foreign_refused (cfg : GenCfg) (n : Node) (v : Val) (p : List Seg) (op : Op) (r : Seg) (isCap : Bool)
+    (sc : LoopScript) (ft : Val → Bytes) (src : Src) (nb : Bool) (env : DeqEnv) (f : Form) (fs : Form) (hs : okForm fs = true) :
+    getM cfg n .foreign v p = .none ∧
+    cmpM cfg n .foreign v p op r = .untouched ∧
+    lcM cfg isCap n .foreign v p = .unsupported ∧
+    (loopM cfg sc ft n .foreign v p).fin = .done ∧ (loopM cfg sc ft n .foreign v p).groups = [] ∧
+    deqM env n .foreign f v v = (if deqArgOf f = .panic then .panic else .f) ∧
+    copyM cfg n .foreign v = .unsupported ∧
+    copyToM cfg n fs .foreign v v = .unsupported ∧
+    resetM cfg n .foreign v = .unsupported ∧
+    setM cfg n .foreign v p src nb = .ok v := by
+  refine ⟨rfl, ?_, rfl, ?_, ?_, ?_, rfl, ?_, rfl, ?_⟩
+  · cases p <;> rfl
+  · rw [loop_foreign]
+  · rw [loop_foreign]
+  · cases f <;> rfl
+  · rcases (okForm_iff fs).mp hs with h | h | h <;> subst h <;> rfl
+  · cases p <;> rfl
 
 end Inspector.C12
